@@ -777,7 +777,14 @@ def evaluate(trace, want_events=False):
          "sigs": set(), "nontrivial": 0}
   st = out["stats"]
   try:
-    planned = run_planner(wl)
+    fs0 = None
+    for old in trace.get("prehistory", ()):
+      # earlier planner runs over the same output directory; only their
+      # leftovers matter
+      fs0 = run_planner(old, fs0).fs
+      st["probes"]["planner_runs_over_leftovers"] = (
+          st["probes"].get("planner_runs_over_leftovers", 0) + 1)
+    planned = run_planner(wl, fs0)
   except Exception as ex:  # pylint: disable=broad-except
     import traceback
     out["violation"] = {"class": "PLANNER_CRASH", "oracle": "planner",
@@ -834,11 +841,60 @@ def evaluate(trace, want_events=False):
   return out
 
 
+def earlier_version(rng, wl):
+  """An earlier state of the same project (same root, output directory and
+  module files): other import edges, other requested files, perhaps a module
+  that has since been deleted. The planner is run over it FIRST, in the same
+  output directory, so that the run under test starts among the leftovers of
+  a previous run (its build.ninja, *.imports, default.pyi)."""
+  import copy
+  old = copy.deepcopy(wl)
+  old.pop("thin_cycle_deps", None)
+  mods_ = old["modules"]
+  n = len(mods_)
+  importable = [m["id"] for m in mods_ if m["name"] and not m.get("script")]
+  edges = set(map(tuple, old["edges"]))
+  kind = rng.choice(["inputs", "more_edges", "fewer_edges", "extra_module", "mixed"])
+  if kind in ("more_edges", "mixed", "extra_module"):
+    for _ in range(rng.randrange(1, 4)):
+      if importable and n >= 2:
+        a = rng.randrange(n)
+        b = rng.choice(importable)
+        if a != b and mods_[a]["kind"] in ("Local", "Direct"):
+          edges.add((a, b))
+  if kind in ("fewer_edges", "mixed") and edges:
+    for e in rng.sample(sorted(edges), rng.randrange(1, min(3, len(edges)) + 1)):
+      edges.discard(e)
+  if kind == "extra_module":
+    nid = max(m["id"] for m in mods_) + 1
+    name = "gone%d" % nid
+    mods_.append({"id": nid, "name": name, "kind": "Local",
+                  "path": os.path.join(old["root"], name + ".py"), "stub": False})
+    for a in rng.sample(range(n), min(n, rng.randrange(1, 3))):
+      if mods_[a]["kind"] in ("Local", "Direct") and not mods_[a]["stub"]:
+        edges.add((a, nid))
+    if importable and rng.random() < 0.5:
+      edges.add((nid, rng.choice(importable)))
+  old["edges"] = sorted(edges)
+  old["dup_edges"] = []
+  if kind in ("inputs", "mixed") or rng.random() < 0.3:
+    cand = [m["id"] for m in mods_ if not m["stub"] and m["kind"] in ("Local", "Direct")]
+    if cand:
+      pick = sorted(set(rng.sample(cand, rng.randrange(1, len(cand) + 1))))
+      old["inputs"] = pick
+  if rng.random() < 0.2:
+    old["conf"]["keep_going"] = not old["conf"]["keep_going"]
+  return old
+
+
 def generate(rng):
   wl = gen_workload(rng)
   n_sched = rng.choice([8, 12, 16, 24])
-  return {"workload": wl,
-          "schedules": [gen_schedule(rng, 2 * len(wl["modules"])) for _ in range(n_sched)]}
+  tr = {"workload": wl,
+        "schedules": [gen_schedule(rng, 2 * len(wl["modules"])) for _ in range(n_sched)]}
+  if rng.random() < 0.3:
+    tr["prehistory"] = [earlier_version(rng, wl) for _ in range(rng.choice([1, 1, 2]))]
+  return tr
 
 
 def vkey(v):
